@@ -152,6 +152,18 @@ def run_case(case, rec, ctx):
                 walk.append({"op": "formulate", "builder": 0})
         walk.append({"op": "formulate", "builder": 0})
         histories.append(("naming-walk", 1, walk))
+        # a walk over the dynamics builders of one resonance (formulate after each assignment): every builder kind is reached after
+        # several different predecessors - builders may keep memoised results
+        res_ = C.resonances(reaction)
+        if res_:
+            tgt = str(rng.choice(res_))
+            kinds_ = list(C.BUILDERS) if C.l_available(reaction, tgt) else ["bw", "non_dynamic"]
+            seq = [str(k_) for k_ in rng.permutation(kinds_)] + ["bw"] + [str(k_) for k_ in rng.permutation(kinds_)][: 3] + ["bw"]
+            dwalk = [{"op": "formulate", "builder": 0}]
+            for kd in seq:
+                dwalk.append({"op": "assign", "builder": 0, "target": tgt, "kind": kd, "select": "name"})
+                dwalk.append({"op": "formulate", "builder": 0})
+            histories.append(("dynamics-walk", 1, dwalk))
         # derived schedules: reversed order of the configuration blocks and an interleaving of two histories
         hname, nb, ops = histories[0]
         histories.append((hname + "-reversed", nb, list(reversed(ops)) + [{"op": "formulate", "builder": 0}]))
